@@ -32,3 +32,5 @@ LEVEL_NOTE = ("The theorems are about Gallina models of query.go and lookup_opti
 
 def classify(desc, code):
     return None
+
+RULE = RULE + (" Failing peers fail with a plain error, a wrapped context.Canceled or a wrapped context.DeadlineExceeded (a third each, a function of the peer id) while the caller's context is alive: a transport error that looks like a cancellation must not leave the peer waiting.")
